@@ -86,6 +86,7 @@ Fallible(cfg, ins) ==
     [] ins.t = "stream" -> TRUE
     [] ins.t = "ctor" -> ins.kind \in {0, 1, 3} \/ (ins.kind = 2 /\ ~cfg.nothrowMoveCtor)
     [] ins.t = "asg"  -> ins.kind = 1 \/ (ins.kind = 2 /\ ~cfg.nothrowMoveAssign)
+    [] ins.t = "uswap" -> TRUE
     [] OTHER -> FALSE
 
 FaultKind(ins) ==
@@ -95,6 +96,7 @@ FaultKind(ins) ==
     [] ins.t = "stream" -> IF ins.code = 6 THEN 8 ELSE 9
     [] ins.t = "ctor" -> (CASE ins.kind = 0 -> 6 [] ins.kind = 1 -> 2 [] ins.kind = 2 -> 3 [] OTHER -> 7)
     [] ins.t = "asg" -> IF ins.kind = 1 THEN 4 ELSE 5
+    [] ins.t = "uswap" -> 11
     [] OTHER -> 0
 
 CellAt(s, r, i) == IF r = 3 THEN s.tmp[i + 1] ELSE IF r = 4 THEN Live(s.ext[i], 0) ELSE s.mem[r][i + 1]
@@ -128,6 +130,10 @@ Prim(cfg, s, ins) ==
          IN [s2 EXCEPT !.evs = Append(@, <<2, ins.r, ins.i, ins.kind, ins.sr, ins.si>>)]
     [] ins.t = "dtor" ->
          [SetCell(s, ins.r, ins.i, Raw) EXCEPT !.evs = Append(@, <<3, ins.r, ins.i, 0, 0, 0>>)]
+    [] ins.t = "uswap" ->          \* the element type's own swap (found by ADL): exchanges the two objects, creates nothing, logs nothing
+         LET ca == CellAt(s, ins.ra, ins.i)
+             cb == CellAt(s, ins.rb, ins.i)
+         IN SetCell(SetCell(s, ins.ra, ins.i, cb), ins.rb, ins.i, ca)
     [] ins.t = "gen" -> [s EXCEPT !.evs = Append(@, <<8, 0, ins.j, 0, 0, 0>>)]
     [] ins.t = "stream" -> [s EXCEPT !.evs = Append(@, <<ins.code, 0, ins.j, ins.j, ins.len, 0>>)]
     [] ins.t = "sethd" -> [s EXCEPT !.hd[ins.c].cap = ins.cap, !.hd[ins.c].st = ins.st]
@@ -616,10 +622,14 @@ SwapCells(cfg, Ra, Rb, i) ==
   <<ICtor(3, 0, MoveKind(cfg), Ra, i, 0),
     ITry(<<IAsg(Ra, i, MoveKind(cfg), Rb, i), IAsg(Rb, i, MoveKind(cfg), 3, 0)>>, <<IDtor(3, 0)>>),
     IDtor(3, 0)>>
+\* `using std::swap; swap (a, b)` for n element pairs: the element type's own swap when it has one (cfg.adlswap)
+SwapRun(cfg, Ra, Rb, n) ==
+  IF cfg.adlswap THEN [k \in 1..n |-> [t |-> "uswap", ra |-> Ra, rb |-> Rb, i |-> k - 1]]
+  ELSE [k \in 1..(3 * n) |-> SwapCells(cfg, Ra, Rb, (k - 1) \div 3)[((k - 1) % 3) + 1]]
 
 \* swap_elements (4431): a = the shorter container
 SwapElements(cfg, a, b, xa, xb, Ra, Rb) ==
-  LET body == [k \in 1..(3 * xa.sz) |-> SwapCells(cfg, Ra, Rb, (k - 1) \div 3)[((k - 1) % 3) + 1]] IN
+  LET body == SwapRun(cfg, Ra, Rb, xa.sz) IN
   body \o <<UMove(cfg, MoveKind(cfg), Rb, xa.sz, xb.sz, Ra, xa.sz)>> \o DestroyRange(Rb, xa.sz, xb.sz)
   \o <<ISetSz(a, xb.sz), ISetSz(b, xa.sz)>>
 
@@ -628,7 +638,7 @@ SwapImpl(cfg, d, s, xd, xs, Rd, Rs, id, N) ==
   IF d = s THEN
     \* self: heap -> swap_allocation with itself; inline -> every element is swapped with itself
     (IF xd.st > 0 \/ (N = 0 /\ (cfg.isStd \/ cfg.pocs \/ cfg.ae)) THEN <<>>
-     ELSE [k \in 1..(3 * xd.sz) |-> SwapCells(cfg, Rd, Rd, (k - 1) \div 3)[((k - 1) % 3) + 1]])
+     ELSE SwapRun(cfg, Rd, Rd, xd.sz))
   ELSE
   LET lo == IF xd.cap < xs.cap THEN d ELSE s
       hi == IF lo = d THEN s ELSE d
